@@ -81,6 +81,23 @@ def trace : RT → List Event
   | .base => [.enter .base, .exit .base]
   | .wrap l n => .enter l :: (trace n ++ [.exit l])
 
+/-- what a RoundTrip returns: `(resp, nil)`, `(nil, err)`, or both non-nil (a transport that breaks the
+    RoundTripper contract; RetryMiddleware passes such a pair on) -/
+inductive RTOut where
+  | ok | fail | both
+  deriving Repr, DecidableEq, Inhabited
+
+/-- the result of one round trip through a chain whose base transport answers `o`.
+    LoggingMiddleware: `resp, err := next.RoundTrip(req); if err != nil { log …; return nil, err }; log …; return resp, nil`.
+    A middleware added with `Use` is opaque; the tagging middlewares of the check pass the pair on. -/
+def roundTrip : RT → RTOut → RTOut
+  | .base, o => o
+  | .wrap .log n, o =>
+    match roundTrip n o with
+    | .ok => .ok
+    | _ => .fail
+  | .wrap _ n, o => roundTrip n o
+
 def enterOrder (t : RT) : List Layer := (trace t).filterMap (fun e => match e with | .enter l => some l | _ => none)
 def exitOrder (t : RT) : List Layer := (trace t).filterMap (fun e => match e with | .exit l => some l | _ => none)
 
